@@ -153,7 +153,7 @@ SOURCE_TIES = {
     'Huffman round trip on the source': {'unit': 'SrcHuffEnc', 'module': 'HpackVerif.Props.OnSourceHuff', 'audit': 'AuditOnSourceHuff.lean',
                                          'held_text': 'property theorem composed with the tie: stated on the translated source itself', 'users': {'C12', 'C13'}},
     'decoder properties on the source': {'unit': 'SrcDec', 'module': 'HpackVerif.Props.OnSourceDec', 'audit': 'AuditOnSourceDec.lean',
-                                         'held_text': 'property theorem composed with the tie: stated on the translated source itself', 'users': {'C04', 'C07', 'C02', 'C08', 'C05', 'C15'}},
+                                         'held_text': 'property theorem composed with the tie: stated on the translated source itself', 'users': {'C04', 'C07', 'C02', 'C08', 'C05', 'C15', 'C16'}},
     'table properties on the source': {'unit': 'SrcTable', 'module': 'HpackVerif.Props.OnSourceTable', 'audit': 'AuditOnSourceTable.lean',
                                        'held_text': 'property theorem composed with the tie: stated on the translated source itself', 'users': {'C06', 'C14'}},
     'encoder properties on the source': {'unit': 'SrcEnc', 'module': 'HpackVerif.Props.OnSourceEnc', 'audit': 'AuditOnSourceEnc.lean',
